@@ -417,6 +417,9 @@ func c04Stats(cases []string) map[string]int {
 			continue
 		case "gz":
 			st["gz."+f[1]]++
+			for _, k := range c04GzClass(UnHex(f[3])) {
+				st["gz."+k]++
+			}
 			continue
 		case "big":
 			st["big."+f[1]]++
